@@ -46,6 +46,8 @@ RULE = ("cases = full product {certificate kind (valid exact / wildcard / CN-onl
         "self-signed; several failures at once)} x {trust flag, no callback, accept all, reject all, accept first k, "
         "reject the j-th, answer 2} x {STARTTLS, legacy SSL, xmpp_conn_tls_start on a raw connection} x {CA file, "
         "none} every run, plus CA directory / default store from the environment / other root / missing file, "
+        "histories (earlier xmpp_conn_set_flags words incl. refused ones, earlier certfail handlers set and "
+        "cleared, earlier rounds on the same connection object ended by failure or conn_disconnect), "
         "domains in several spellings (case, sub-domain, IDN A-label, IP literal, empty, leading dot), presented "
         "identifiers fuzzed around the domain (case, wildcards in every position, partial / double / inner "
         "wildcards, bad labels, trailing / leading dots, NUL, one-byte changes), server that closes, answers "
@@ -89,10 +91,18 @@ class Desc:
         kv = dict(t.split("=", 1) for t in op.split(" ")[1:])
         self.domain = unhx(kv["dom"])
         self.path = kv["path"]
-        self.flags = int(kv.get("flags", "0"))
+        # every word is one xmpp_conn_set_flags call; a word with DISABLE_TLS (1) and TRUST_TLS (8) or
+        # LEGACY_SSL (4, added by path l) is refused.  What counts is what the user said LAST.
+        self.flag_words = [int(x) for x in kv.get("flags", "0").split(",")]
+        add = 4 if self.path == "l" else 0
+        self.flags_refused = bool((self.flag_words[-1] | add) & 1) and bool((self.flag_words[-1] | add) & (2 | 4 | 8))
+        self.flags = self.flag_words[-1]
         self.trust = bool(self.flags & 8)
         self.disabled = bool(self.flags & 1)
-        self.cb = kv.get("cb", "none")
+        # one xmpp_conn_set_certfail_handler call per entry: the last decides whether a handler is
+        # installed, the last entry that is not `none` how it answers
+        cbs = kv.get("cb", "none").split(",")
+        self.cb = "none" if cbs[-1] == "none" else cbs[-1]
         self.ca = kv.get("ca", "none")
         self.srv = kv.get("srv", "ok")
         iss, nb, na, cn, sans = kv["leaf"].split(";")
@@ -261,11 +271,14 @@ def fuzz_case(rng):
             "start", "end"]
 
 
-def mk_case(dom, kind_name, cbmode, path, ca, srv="ok", disabled=False, follow=None):
+def mk_case(dom, kind_name, cbmode, path, ca, srv="ok", disabled=False, follow=None, history=None):
     lf, inter = kinds(dom)[kind_name]
-    flags = (8 if cbmode == "trust" else 0) | (1 if disabled else 0)
+    flags = str((8 if cbmode == "trust" else 0) | (1 if disabled else 0))
     cb = "none" if cbmode == "trust" else cbmode
-    op = "cfg dom=%s path=%s flags=%d cb=%s ca=%s srv=%s leaf=%s" % (hx(dom), path, flags, cb, ca, srv, lf)
+    if history:
+        flags = history[0] + flags
+        cb = history[1] + cb
+    op = "cfg dom=%s path=%s flags=%s cb=%s ca=%s srv=%s leaf=%s" % (hx(dom), path, flags, cb, ca, srv, lf)
     if inter:
         op += " inter=" + inter
     return ["#kind " + kind_name, op, "start"] + list(follow or []) + ["end"]
@@ -324,6 +337,26 @@ def generate(rng, tier, override=0):
         srv = rng.choice(["ok"] * 12 + ["close", "garbage", "mute"])
         disabled = path != "l" and cbm != "trust" and rng.random() < 0.05
         cases.append(mk_case(d, kind, cbm, path, ca, srv, disabled, follow_ups(rng)))
+    # (3a) what the user said LAST counts: earlier xmpp_conn_set_flags / set_certfail_handler calls, and
+    #      earlier rounds on the same connection object (reconnect after a failed or dropped attempt)
+    for _ in range(150 if tier == "quick" else 2500):
+        d = rng.choice(DOMAINS[:4])
+        kk = kinds(d)
+        rounds = []
+        prev_ca = None
+        for r in range(rng.choice([1, 2, 2, 3])):
+            kind = rng.choice(sorted(kk))
+            cbm = rng.choice(CB_ALL)
+            path = rng.choice(["s", "l", "d"])
+            # CA file and CA directory are separate, cumulative settings that cannot be taken back:
+            # every round of a case uses the same one
+            ca = prev_ca or rng.choice(["file", "file", "none", "path", "other"])
+            prev_ca = ca
+            hist = (rng.choice(["", "8,", "0,", "8,0,", "9,", "8,9,", "1,"] if path != "l" else ["", "8,", "0,", "8,0,", "1,", "9,"]),
+                    rng.choice(["", "acc,", "rej,", "acc,none,", "none,", "k1,"]))
+            c = mk_case(d, kind, cbm, path, ca, follow=follow_ups(rng), history=hist)[:-1]
+            rounds += c + ["drop"]
+        cases.append(rounds + ["end"])
     # (3b) presented identifiers in the neighbourhood of the domain: OpenSSL's matcher, the Lean
     #      specification `namesHost` and this module's matcher must agree on every one
     for _ in range(400 if tier == "quick" else 6000):
@@ -384,8 +417,12 @@ def py_oracle_ex(ops, outs, extras):  # noqa: C901
         t = op.split(" ")
         if t[0] == "cfg":
             if out != "= cfg ok":
+                d = None
                 continue
             d = Desc(op)
+            # a new round (possibly on the same connection object)
+            attempted = failed_attempt = trusted_session = False
+            clear_all, enc_all, evs_all = [], [], []
             continue
         if d is None:
             continue
@@ -394,6 +431,13 @@ def py_oracle_ex(ops, outs, extras):  # noqa: C901
             if out.startswith("= start connect-failed"):
                 if not d.refused():
                     fail(i, "connect-failed", "a usable domain was refused: %s" % out)
+                continue
+            if out == "= start bad-flags":
+                if not d.flags_refused:
+                    fail(i, "flags-refused", "xmpp_conn_set_flags refused %s" % d.flag_words)
+                continue
+            if d.flags_refused:
+                fail(i, "flags-accepted", "xmpp_conn_set_flags accepted conflicting flags %s" % d.flag_words)
                 continue
             if not out.startswith("= start att="):
                 fail(i, "start-shape", out[:120])
@@ -465,7 +509,7 @@ def py_oracle_ex(ops, outs, extras):  # noqa: C901
                 must = good or d.trust or (d.cb in ("acc", "v2", "v7"))
                 if must and not sec:
                     fail(i, "false-reject", "good=%s trust=%s cb=%s but not secured: %s" % (good, d.trust, d.cb, out[:160]))
-        if t[0] in ("start", "probe", "tick") and out.startswith("= "):
+        if t[0] in ("start", "probe", "tick", "drop") and out.startswith("= "):
             f = fields(out)
             if "clear" not in f:
                 continue
@@ -487,6 +531,8 @@ def py_oracle_ex(ops, outs, extras):  # noqa: C901
                     lib = [x for x in new if x not in ("close",)]
                 else:
                     lib = [x for x in new if x not in ("close", "probe")]
+                if t[0] == "drop":
+                    lib = []
                 if lib:
                     fail(i, "cleartext-after-failure", "%s written in the clear after the failed handshake" % lib)
                 if f["st"] != "d":
@@ -540,7 +586,7 @@ def tags(case, outs):
                     f["hs"], f["sec"], min(nf, 4), f["st"]))
             else:
                 res.append("start:" + " ".join(out.split(" ")[2:3]))
-        elif t[0] in ("probe", "tick") and out.startswith("= io"):
+        elif t[0] in ("probe", "tick", "drop") and out.startswith("= io"):
             f = fields(out)
             res.append("%s:%s:sec%s:st%s:cl%s:en%s" % (op if t[0] == "probe" else "tick", d.path if d else "?", f["sec"],
                                                        f["st"], f["clear"], f["enc"]))
